@@ -550,17 +550,16 @@ fn format_directive<'entry>(
             }
         }
 
-        FormatDirective::Type { follow_links } => if file_info.path_is_symlink() {
-            if *follow_links {
-                match file_info.path().metadata().map_err(WalkError::from) {
-                    Ok(meta) => format_non_link_file_type(meta.file_type().into()),
-                    Err(e) if e.is_not_found() => 'N',
-                    Err(e) if e.is_loop() => 'L',
-                    Err(_) => '?',
-                }
-            } else {
-                'l'
+        FormatDirective::Type { follow_links } => if *follow_links && file_info.path_is_symlink() {
+            match file_info.path().metadata().map_err(WalkError::from) {
+                Ok(meta) => format_non_link_file_type(meta.file_type().into()),
+                Err(e) if e.is_not_found() => 'N',
+                Err(e) if e.is_loop() => 'L',
+                Err(_) => '?',
             }
+        } else if file_info.file_type().is_symlink() {
+            // Like -type, %y sees a link only where the follow mode does not resolve it.
+            'l'
         } else {
             format_non_link_file_type(file_info.file_type())
         }
